@@ -235,7 +235,10 @@ class DataSaveable:
             data = self._data_with_axis(with_axis)
             io.savemat(file, {"data":data})
         else:
-            io.savemat(file, {"data":self.data})
+            # Matlab has no one-dimensional arrays; the number of dimensions
+            # is stored so that the shape can be restored on loading
+            io.savemat(file, {"data":self.data, 
+                              "ndim":len(self.data.shape)})
 
     
     def _loadMatlab(self, file, with_axis=None):
@@ -243,7 +246,11 @@ class DataSaveable:
         
         """
         self.set_data_writable()
-        _data = io.loadmat(file)["data"]
+        mat = io.loadmat(file)
+        _data = mat["data"]
+        if ("ndim" in mat) and (mat["ndim"][0,0] == 1):
+            # one-dimensional data come back from Matlab format as one row
+            _data = _data[0,:]
         self.data = self._extract_data_with_axis(_data, with_axis)
         self.set_data_protected()
 
